@@ -77,6 +77,18 @@ Theorem C08_immediate_expired_requests_all : forall FS fs_write_file fs_exec res
   get_all_naks (store_file_data offset data s).
 Proof. exact immediate_expired_requests_all. Qed.
 
+(* ... "or after the delay if it persists": when the delay of the first delayed entry [a, b) has
+   elapsed, exactly what is still missing inside [a, min b filesize) is queued (nothing if the gap was
+   filled meanwhile), plus the metadata marker while the metadata is missing; the entry is consumed *)
+Theorem C08_delayed_gap_requested_if_it_persists : forall FS now c a b rest (s : rstate FS),
+  r_delayed s = (c, a, b) :: rest -> snd (c_timeout_occurred now c) = true ->
+  match rest with [] => True | (c2, _, _) :: _ => snd (c_timeout_occurred now c2) = false end ->
+  let clip e := match r_fsize s with Some f => N.min e f | None => e end in
+  let s' := ht_delayed now s in
+  r_naks s' = (r_naks s ++ (if is_some (r_meta s) then [] else [(0, 0)])) ++ (gaps (r_segs s) a (clip b) ++ []) /\
+  length (r_delayed s') = length rest.
+Proof. exact delayed_gap_requested_if_it_persists. Qed.
+
 Print Assumptions C08_queue_initial.
 Print Assumptions C08_queue_invariant.
 Print Assumptions C08_requests_inside_scope.
@@ -85,3 +97,4 @@ Print Assumptions C08_exactly_what_is_missing.
 Print Assumptions C08_deferred_no_unsolicited_nak.
 Print Assumptions C08_immediate_gap_requested.
 Print Assumptions C08_immediate_expired_requests_all.
+Print Assumptions C08_delayed_gap_requested_if_it_persists.
